@@ -64,6 +64,10 @@ func VsymC26_V2() {
 	vsym_Assume(cmd <= 1)
 	hdr = append(hdr, vc, fp, byte(plen>>8), byte(plen))
 	payload := vsym_Bytes("payload", plen)
+	if plen > 40 {
+		// a long header (address block plus TLVs, up to 65535 bytes): the TLV area is concrete filler
+		payload = append(vsym_Bytes("payload", 40), make([]byte, plen-40)...)
+	}
 	trail := vsym_Bytes("trail", ntrail)
 	stream := append(append(append([]byte(nil), hdr...), payload...), trail...)
 	conn := &vsymConn{data: stream, chunk: chunk}
@@ -151,8 +155,8 @@ func VsymC26_AnyBytes() {
 // v1: "PROXY TCP4|TCP6 <src> <dst> <sport> <dport>\r\n" with symbolic short tokens.
 func VsymC26_V1() {
 	ntrail := vsym_Param("trail")
-	proto := vsym_Param("proto") // 0 TCP4, 1 TCP6, 2 UNKNOWN
-	protos := []string{"TCP4", "TCP6", "UNKNOWN"}
+	proto := vsym_Param("proto") // 0 TCP4, 1 TCP6, 2 UNKNOWN, 3 UNKNOWN followed by addresses (to be ignored), 4 UNKNOWN + one field
+	protos := []string{"TCP4", "TCP6", "UNKNOWN", "UNKNOWN", "UNKNOWN"}
 	src := vsym_String("src", 2)
 	dst := vsym_String("dst", 1)
 	sp := vsym_String("sport", 2)
@@ -168,8 +172,11 @@ func VsymC26_V1() {
 		}
 	}
 	line := "PROXY " + protos[proto]
-	if proto != 2 {
+	if proto != 2 && proto != 4 {
 		line += " " + src + " " + dst + " " + sp + " " + dp
+	}
+	if proto == 4 {
+		line += " " + src
 	}
 	line += "\r\n"
 	trail := vsym_Bytes("trail", ntrail)
@@ -178,7 +185,8 @@ func VsymC26_V1() {
 	wrapped, info, err := ReadProxyProtocol(conn)
 	vsym_Assert(err == nil && info != nil, "C26/v1-parsed")
 	vsym_Reach("v1")
-	if proto == 2 {
+	if proto >= 2 {
+		// "the receiver must ignore anything presented before the CRLF" after UNKNOWN
 		vsym_Assert(info.Local, "C26/v1-unknown-local")
 	} else {
 		vsym_Assert(vsym_StrEq(info.SourceIP, src) && vsym_StrEq(info.DestIP, dst), "C26/v1-addrs")
